@@ -159,7 +159,8 @@ func (fv *FuncVC) evalIdent(x *ast.Ident, st *State) Val {
 func (fv *FuncVC) globalVar(o *types.Var, st *State) Val {
 	s := fv.th.sortOf(o.Type())
 	name := "glob$" + sanitize(o.Pkg().Path()+"."+o.Name())
-	if !fv.th.declSeen[name] {
+	if !fv.th.globDone[name] {
+		fv.th.globDone[name] = true
 		fv.th.declConst(name, s)
 		// a package-level variable initialised with &T{...} (and never reassigned: assumption) is a non-nil *T
 		if s == SRef {
@@ -167,6 +168,7 @@ func (fv *FuncVC) globalVar(o *types.Var, st *State) Val {
 				if u, ok := init.(*ast.UnaryExpr); ok {
 					if _, isLit := u.X.(*ast.CompositeLit); isLit {
 						fv.th.axioms = append(fv.th.axioms, mkNot(mkEq(name, "nil")))
+						fv.th.axioms = append(fv.th.axioms, mkEq(sx("dyntype", name), intLit(int64(fv.th.tagOf(o.Type())))))
 					}
 				}
 				// regexp.MustCompile / template.Must ... never return nil
